@@ -166,6 +166,8 @@ type Dst struct {
 	After   int // calls that arrived after the failure
 	// Err, when set, is returned instead of ErrInjected
 	Err error
+	// Aux is for the harness that owns the destination (wops keeps the caller's arena here)
+	Aux interface{}
 }
 
 func NewDst() *Dst { return &Dst{FailAt: -1} }
